@@ -391,7 +391,7 @@ def fresh_process(ctx, res, cases):
 def run(ctx, res):
     rng = ctx.rng
     cases = []
-    n = ctx.budget(140, 1200)
+    n = ctx.budget(260, 1500)
     while len(cases) < n:
         c = gen_case(ctx, rng)
         if tame(c):
